@@ -1,10 +1,10 @@
 #!/bin/bash
 # background sweep: thorough tier of every check over several seeds against a snapshot of the repository
-# usage (via vp run --with-repo): tools/sweep.sh <tier> <seed>...
+# usage (via vp run --with-repo): [PROPS="C01 C08"] tools/sweep.sh <tier> <seed>...
 tier=${1:-thorough}; shift
 export OPSIM_REPO=${VP_RUN_REPO:-/repo}
 for seed in "$@"; do
-  for p in $(python3 -c "import json;print(' '.join(c['property_id'] for c in json.load(open('MANIFEST.json'))['checks']))"); do
+  for p in ${PROPS:-$(python3 -c "import json;print(' '.join(c['property_id'] for c in json.load(open('MANIFEST.json'))['checks']))")}; do
     s=$(date +%s); out=$(VERIF_SEED=$seed ./check $p $tier 2>&1); rc=$?; e=$(date +%s)
     # keep replay files: the snapshot this runs in is removed when the run is stopped
     if [ $rc -ne 0 ]; then mkdir -p /tmp/sweep-replays; for f in $(echo "$out" | grep -o 'replay=[^ ]*' | cut -d= -f2); do cp "$f" "${f%.json}.full.json" /tmp/sweep-replays/ 2>/dev/null; done; echo "$out" | tail -40 > /tmp/sweep-replays/$p-seed$seed.out; fi
